@@ -16,9 +16,12 @@ META = {
         'sequence accepts.',
     'level_note':
         'Trusted: z3 (integers), np-lite for the two encoders that build their '
-        'input with numpy. KeyMelodyEncoderDecoder.events_to_input (numpy key '
-        'histograms) is outside the claim; its label/decoder clauses are '
-        'inside.',
+        'input with numpy and for the key histograms (bincount over symbolic '
+        'pitches gives symbolic counts) of KeyMelodyEncoderDecoder.'
+        'events_to_input, whose vectors are checked for size, value range, '
+        'the pitch/silence block and the key flags on 2-event melodies (the '
+        'max over twelve symbolic counts makes longer melodies expensive: 3 '
+        'events are a non-required thorough job).',
     'functions': [
         ('encoder_decoder', 'EventSequenceEncoderDecoder.encode'),
         ('encoder_decoder', 'OneHotEventSequenceEncoderDecoder.events_to_input'),
@@ -41,6 +44,8 @@ META = {
          'ConditionalEventSequenceEncoderDecoder.events_to_input'),
         ('encoder_decoder', 'ConditionalEventSequenceEncoderDecoder.encode'),
         ('melody_encoder_decoder', 'KeyMelodyEncoderDecoder.events_to_label'),
+        ('melody_encoder_decoder', 'KeyMelodyEncoderDecoder.events_to_input'),
+        ('melodies_lib', 'Melody.get_major_key_histogram'),
         ('melody_encoder_decoder',
          'KeyMelodyEncoderDecoder.class_index_to_event'),
         ('performance_encoder_decoder',
@@ -76,7 +81,8 @@ META = {
         'thorough': 'L<=6 (8 over the 3-symbol alphabet with lookbacks from '
                     '{1,2,3}); histories <=4; pianoroll width 6',
     },
-    'outside': ['KeyMelody input vector', 'sequences longer than the bounds'],
+    'outside': ['KeyMelody input vectors of melodies longer than 2 (3) events',
+                'sequences longer than the bounds'],
 }
 
 LO, HI = 48, 84
@@ -261,6 +267,33 @@ def h_keymelody(c):
   c.check(enc.default_event_label == HI - LO, 'default label = no-event')
 
 
+def h_keymelody_input(c):
+  """KeyMelody input vectors: input_size entries, each in {-1, 0, 1}, the
+  pitch / silence block one-hot (key histograms through np-lite)."""
+  med = c.mod('melody_encoder_decoder')
+  L, p, nl = c.params['L'], c.params['p'], c.params['nl']
+  events = [_valid_event(c, 'e%d' % i) for i in range(L)]
+  dists = _lookbacks(c, nl)
+  bits = c.params.get('bits', 3)
+  enc = med.KeyMelodyEncoderDecoder(LO, HI, list(dists), bits)
+  want = (HI - LO) + 2 + 1 + 1 + nl + bits + 1 + 12 + 12
+  c.check(enc.input_size == want, 'input_size as documented')
+  vec = enc.events_to_input(list(events), p)
+  c.check(len(vec) == enc.input_size, 'input vector has input_size entries')
+  c.check(c.And([c.Or(c.eq(v, 0), c.eq(v, 1), c.eq(v, -1)) for v in vec]),
+          'entries are -1, 0 or 1')
+  r = HI - LO
+  ones = c.Sum([c.If(c.eq(v, 1), 1, 0) for v in vec[:r]])
+  c.check(bool(c.eq(ones + c.If(c.eq(vec[r + 1], 1), 1, 0), 1)) and
+          bool(c.eq(vec[r], ones)) and
+          bool(c.And([c.Or(c.eq(v, 0), c.eq(v, 1)) for v in vec[:r + 2]])),
+          'exactly one of: a pitch of the range (with the playing flag) / '
+          'silence')
+  c.check(bool(c.Or([c.eq(v, 1) for v in vec[-12:]])) and
+          bool(c.Or([c.eq(v, 1) for v in vec[-24:-12]])),
+          'at least one key flagged in each key block')
+
+
 def h_conditional(c):
   ed = c.mod('encoder_decoder')
   med = c.mod('melody_encoder_decoder')
@@ -423,6 +456,7 @@ HARNESSES = {
     'h_onehot': h_onehot,
     'h_generation_step': h_generation_step,
     'h_keymelody': h_keymelody,
+    'h_keymelody_input': h_keymelody_input,
     'h_conditional': h_conditional,
     'h_noteperf': h_noteperf,
     'h_modulo': h_modulo,
@@ -451,6 +485,7 @@ def jobs(tier):
   for p in range(Lq):
     add('h_keymelody', L=Lq, p=p, nl=2)
   add('h_keymelody', L=2, p=1, nl=1)
+  add('h_keymelody_input', L=2, p=1, nl=1, budget=600)
   add('h_conditional', L=2, small_alphabet=True)
   add('h_noteperf', ms=1000, md=1000, nv=32, pitch=[0, 127])
   add('h_noteperf', ms=99, md=100, nv=127, pitch=[21, 108])
@@ -477,6 +512,7 @@ def jobs(tier):
       add('h_generation_step', enc=encn, H=4, nl=2, budget=900)
     for p in range(6):
       add('h_keymelody', L=6, p=p, nl=2, budget=900)
+    add('h_keymelody_input', L=3, p=2, nl=2, budget=3000, required=False)
     add('h_conditional', L=3, budget=1800, small_alphabet=True)
     add('h_noteperf', ms=11, md=12, nv=3, pitch=[60, 62], input=True, budget=1800)
     add('h_noteperf', ms=399, md=400, nv=64, pitch=[0, 127])
